@@ -1157,6 +1157,8 @@ def member_bases(spec):
     gen = U.enumerate_members(flags="allsamples", **b)
     kind = spec["kind"]
     opt = spec.get("opt", {})
+    sub_i, sub_n = spec.get("sub", (0, 1))
+    idx = -1
     for m in U.shard(gen, spec["k"], spec["n"]):
         md = m.desc()
         if kind in ("sortE", "squash"):
@@ -1176,7 +1178,9 @@ def member_bases(spec):
                     if kind == "canon":
                         bd["indpop"] = first
                     first = False
-                    yield bd
+                    idx += 1
+                    if idx % sub_n == sub_i:
+                        yield bd
 
 
 def synthetic_bases(spec):
@@ -1237,11 +1241,13 @@ def bounds(tier):
     }
 
 
-def _split_members(specs, kind, b, per, opt=None):
+def _split_members(specs, kind, b, per, opt=None, sub=1):
+    """One shard per `per` members; sub > 1 further splits each shard's bases round-robin."""
     cnt = U.count_members(b["N"], b["G"], b.get("times", "id"), flags="one")
     n = max(1, -(-cnt // per))
     for k in range(n):
-        specs.append(dict(kind=kind, b=b, k=k, n=n, opt=opt or {}))
+        for i in range(sub):
+            specs.append(dict(kind=kind, b=b, k=k, n=n, opt=opt or {}, sub=(i, sub)))
 
 
 def shards(tier, seed):
@@ -1289,12 +1295,12 @@ def shards(tier, seed):
         _split_members(specs, "sortX", dict(N=4, G=1, times=I), 4)
         _split_members(specs, "sortX", dict(N=3, G=3, times=I), 12)
         th = dict(one_max=3, two_max=2, pairs=True)
-        _split_members(specs, "chain", dict(N=2, G=2, times=W), 4, th)
-        _split_members(specs, "chain", dict(N=3, G=1, times=I), 1, th)
+        _split_members(specs, "chain", dict(N=2, G=2, times=W), 4, th, sub=4)
+        _split_members(specs, "chain", dict(N=3, G=1, times=I), 1, th, sub=2)
         _split_members(specs, "chain", dict(N=3, G=1, times=W), 2, dict(one_max=3, two_max=2))
-        _split_members(specs, "chain", dict(N=3, G=2, times=I), 1, th)
+        _split_members(specs, "chain", dict(N=3, G=2, times=I), 1, th, sub=6)
         _split_members(specs, "chain", dict(N=3, G=2, times=W), 3, dict(one_max=3, two_max=1))
-        _split_members(specs, "chain", dict(N=4, G=1, times=I), 1, dict(one_max=3, two_max=2))
+        _split_members(specs, "chain", dict(N=4, G=1, times=I), 1, dict(one_max=3, two_max=2), sub=2)
         _split_members(specs, "chain", dict(N=4, G=2, times=I), 4, dict(one_max=2, two_max=1))
         _split_members(specs, "parents", dict(N=2, G=2, times=I), 4, dict(one_max=4, two_max=2))
         _split_members(specs, "parents", dict(N=3, G=2, times=I), 1, dict(one_max=4, two_max=2))
